@@ -411,7 +411,7 @@ class C13(TraceProp):
     sections = ('versions', 'txs')
     seg_fields = ('C01', 'C02')
     shapes = ['articles_excl', 'articles_excl', 'aliased', 'comment']
-    weights = {'set': 12, 'set_same': 3, 'flush': 5, 'commit': 6}
+    weights = {'set': 12, 'set_same': 3, 'flush': 5, 'commit': 8, 'setrel': 6, 'add': 6}
     rule = ('random exclude / include sets over plain and aliased columns (include beats exclude) and histories mixing '
             'changes to excluded and versioned columns; version tables and transaction table compared with the model; '
             'the clauses "only real changes are captured" (C01.onlyRealChanges) and "no record without cause" (C02) '
@@ -431,6 +431,10 @@ class C13(TraceProp):
             inc = ['name_' if c == 'name' else c for c in inc]
         spec = envs.shape_articles(opts, exclude=ex, include=inc, aliased=aliased, with_comment=rng.random() < 0.3,
                                    plugins=rng.choice([[], ['mod_tracker'], ['tx_changes']]))
+        # the child class: sometimes its foreign-key column (carrying the many-to-one relationship) or its name is excluded
+        tex = rng.choice([[], [], ['article_id'], ['name'], ['article_id', 'name']])
+        if tex:
+            spec['classes'][1]['versioned'] = {'exclude': tex}
         spec['shape'] = 'articles_excl'
         n = rng.choice(self.steps_quick) if tier == 'quick' else rng.choice((10, 20, 40))
         prog = proggen.random_program(rng, spec, n, weights=self.weights)
